@@ -305,7 +305,7 @@ func (en *Engine) VerifyFunc(fc *FuncContract) (res *FuncResult) {
 	ctx := NewCtx()
 	top := &Top{en: en, ctx: ctx, fnKey: shortKey(fc.Key), names: map[string]int{}, cellT: map[int]types.Type{},
 		noteSet: map[string]bool{}, strObjs: map[string]Val{}, entryHeaps: map[string]Term{}, heapSorts: map[string]string{},
-		trusted: map[string]bool{}, props: fc.Props, closures: map[string]Val{}, epochHeaps: map[string]Term{}}
+		trusted: map[string]bool{}, props: fc.Props, closures: map[string]Val{}, epochHeaps: map[string]Term{}, epochMerge: map[int][]epochPart{}}
 	ctx.Raw("sort:F64", "(declare-sort F64 0)")
 	ctx.Raw("f64zero", "(declare-fun f64zero () F64)")
 	top.alloc0 = ctx.Const("alloc0", SInt)
@@ -333,11 +333,22 @@ func (en *Engine) VerifyFunc(fc *FuncContract) (res *FuncResult) {
 	for _, r := range fc.Requires {
 		ctx.Assume(fr.evalBool(sc, r.E))
 	}
+	// axioms about package-level state of dependencies (assumptions, listed in the evidence)
+	for _, ax := range en.CS.Axioms {
+		if p := en.typesPkg(ax.PkgPath); p != nil {
+			asc := &Scope{fr: fr, st: st, vars: map[string]Val{}, entry: map[string]Val{}, pkg: p}
+			ctx.Assume(fr.evalBool(asc, ax.E))
+			top.trusted["axiom("+ax.PkgPath+"): "+ax.Text] = true
+		}
+	}
 	fr.entry = st.clone()
 	fr.entryScope = sc
 	func() {
 		defer func() { recover() }()
 		top.replay = fr.buildReplayInfo(fc)
+		if top.replay != nil {
+			top.replay.EntryScript = strings.Replace(ctx.Script(ctx.Mark(), False, "entry context of "+fc.Key), "(assert (not false))\n", "", 1)
+		}
 	}()
 	rst, vals := fr.execBody(st)
 	if rst != nil {
